@@ -1,6 +1,6 @@
 (* C18 -- A variable colour font reproduces each master at its location (the designspace logic
    and the convexity argument for clip boxes; interpolation itself is ufo2ft/fontTools). *)
-From Coq Require Import List QArith Qminmax Lqa.
+From Coq Require Import List QArith Qminmax Lqa String.
 From Verif Require Import Model.VarModel Proofs.VarModel_facts.
 Import ListNotations.
 Local Open Scope Q_scope.
@@ -16,8 +16,35 @@ Print Assumptions C18_axis_range_contains.
    one axis, where the engine interpolates between adjacent masters with weights (1-t, t), the
    interpolated clip box contains the interpolated geometry whenever each master's does *)
 Theorem C18_wsum_monotone : forall w a b,
-  Forall (fun x => 0 <= x) w -> length a = length w -> length b = length w ->
+  Forall (fun x => 0 <= x) w -> List.length a = List.length w -> List.length b = List.length w ->
   Forall2 Qle a b -> wsum w a <= wsum w b.
 Proof. exact wsum_monotone. Qed.
 Print Assumptions C18_wsum_monotone.
 
+
+(* T3: what write_variable_font puts into the designspace: every master sits, on every axis, at
+   the position its configuration gives for that axis's tag, whatever order the axes were
+   declared in (positions arrive sorted by tag), provided axis names are unambiguous *)
+Theorem C18_location_by_tag :
+  forall (names : list (string * string)) (pos : position) loc,
+  NoDup (map snd names) -> NoDup (map fst pos) ->
+  location names pos = Some loc ->
+  forall tag v n, In (tag, v) pos -> lookup_s tag names = Some n -> loc_value n loc = Some v.
+Proof. exact location_by_tag. Qed.
+Print Assumptions C18_location_by_tag.
+
+(* T4: the axis descriptor carries the configured default (not the lowest position, not another
+   axis's) and a range that contains every master's position on that axis *)
+Theorem C18_axis_def_spec :
+  forall (a : axis) masters tag name lo dflt hi,
+  axis_def a masters = Some (tag, name, lo, dflt, hi) ->
+  tag = a_tag a /\ name = a_name a /\ dflt = a_default a /\
+  forall m v, In m masters -> In (a_tag a, v) m -> lo <= v <= hi.
+Proof. exact axis_def_spec. Qed.
+Print Assumptions C18_axis_def_spec.
+
+(* a position on a tag no axis declares stops the program *)
+Theorem C18_location_unknown_tag :
+  forall names pos tag v, In (tag, v) pos -> lookup_s tag names = None -> location names pos = None.
+Proof. exact location_unknown_tag. Qed.
+Print Assumptions C18_location_unknown_tag.
